@@ -119,9 +119,14 @@ class ExcAnalysis:
                         self.n_primitive_sites += 1
                         facts.append((node, cls_, [
                             f'{func.key}: {why} ({func.where(node)})']))
-                special = self.special_calls.get(call_name(node))
-                if special is not None:
-                    roots, convert, label = special
+                for cls_, why in self._primitive_any(func, node, parents):
+                    self.n_primitive_sites += 1
+                    facts.append((node, cls_, [
+                        f'{func.key}: {why} ({func.where(node)})']))
+                special = self.special_calls.get(call_name(node)) or []
+                if isinstance(special, tuple):
+                    special = [special]
+                for roots, convert, label in special:
                     for root in roots:
                         for cls_, chain in self.escapes(root).items():
                             cls2 = convert.get(cls_, cls_)
@@ -360,6 +365,23 @@ class ExcAnalysis:
                 cur = par
             if not guarded:
                 yield 'StopIteration', f'{txt(call)[:50]} without default'
+
+    def _primitive_any(self, func, call, parents):
+        '''Primitives that do not depend on the input being a listing line:
+        a regular-expression match object dereferenced without a None test
+        (`pattern.match(text).group(1)`): no match -> AttributeError.'''
+        fun = call.func
+        if isinstance(fun, ast.Attribute) and isinstance(
+                fun.value, ast.Call) and call_name(fun.value) in (
+                    'match', 'search', 'fullmatch') and fun.attr in (
+                        'group', 'groups', 'groupdict', 'start', 'end',
+                        'span', 'expand'):
+            inner = fun.value
+            base = receiver(inner)
+            # re.match(...) or <compiled pattern>.match(...)
+            if base is not None:
+                yield 'AttributeError', \
+                    f'{txt(call)[:60]}: the match may be None'
 
     # ---- callees -------------------------------------------------------------
 
